@@ -817,7 +817,7 @@ theorem dbOK_of_chain {kf : KF} : ∀ (l : List DbNode), (∀ n ∈ l, OldOK kf 
     have h2 := hlt f (by rw [hfr]; simp)
     omega
 
-/-- with the repair of F20 the level the stage produces satisfies `DbOK` again -/
+/-- with the repair of F22 the level the stage produces satisfies `DbOK` again -/
 theorem level_closed {kf : KF} (hkf : KFOK kf) (hc : kf.canon = true) (db : List DbNode) (cs : List (Nat × Option Nat))
     (lo : Nat) (hdb : DbOK kf db) (hcs : ChOK lo cs) (hfirst : ∀ l, db.head? = some l → l.sep ≤ lo)
     (f : Produced → Nat) :
